@@ -253,13 +253,16 @@ fn e1_main(a: &Args) -> i32 {
             if !first_of_kind {
                 continue;
             }
+            // operations whose isolated evaluation kills or hangs the process were left out of the
+            // executed run (run2); the violation about them is reproduced from the full description
+            let base = if v.needs == "input-only" && v.property == "C01" { &run } else { &run2 };
             let (min_run, min_v, execs) = if shrunk < max_shrunk && rep.crashed.is_none() {
                 shrunk += 1;
                 let mut sh = shrink::Shrinker { oracle: &mut oracle, budget: 400, executions: 0 };
-                let (r, vv) = sh.shrink(&run2, &rep.choices, &v);
+                let (r, vv) = sh.shrink(base, &rep.choices, &v);
                 (r, vv, sh.executions)
             } else {
-                let mut r = run2.clone();
+                let mut r = base.clone();
                 r.schedule = Some(rep.choices.clone());
                 (r, v.clone(), 0)
             };
